@@ -102,6 +102,12 @@ enum Item {
 enum Op {
     Push(Item),
     NextSection,
+    /// Convert straight to the builder of another section: forwards (skipped
+    /// sections stay empty) or backwards (that section's items stay, all
+    /// later ones are dropped).
+    Goto(u8),
+    /// Back to the plain message builder (everything dropped), then on.
+    ToBuilder,
     Rewind,
     SetLimit(usize),
     ClearLimit,
@@ -182,6 +188,32 @@ impl<T: Composer> Stage<T> {
             Stage::An(b) => Stage::Au(b.authority()),
             Stage::Au(b) => Stage::Ad(b.additional()),
             other => other,
+        }
+    }
+    fn goto(self, to: u8) -> Self {
+        match (self, to) {
+            (Stage::Q(b), 1) => Stage::An(b.answer()),
+            (Stage::Q(b), 2) => Stage::Au(b.authority()),
+            (Stage::Q(b), 3) => Stage::Ad(b.additional()),
+            (Stage::An(b), 0) => Stage::Q(b.question()),
+            (Stage::An(b), 2) => Stage::Au(b.authority()),
+            (Stage::An(b), 3) => Stage::Ad(b.additional()),
+            (Stage::Au(b), 0) => Stage::Q(b.question()),
+            (Stage::Au(b), 1) => Stage::An(b.answer()),
+            (Stage::Au(b), 3) => Stage::Ad(b.additional()),
+            (Stage::Ad(b), 0) => Stage::Q(b.question()),
+            (Stage::Ad(b), 1) => Stage::An(b.answer()),
+            (Stage::Ad(b), 2) => Stage::Au(b.authority()),
+            (other, _) => other,
+        }
+    }
+    fn to_builder(self) -> Self {
+        match self {
+            Stage::Q(b) => Stage::Q(b.builder().question()),
+            Stage::An(b) => Stage::Q(b.builder().question()),
+            Stage::Au(b) => Stage::Q(b.builder().question()),
+            Stage::Ad(b) => Stage::Q(b.builder().question()),
+            Stage::Gone => Stage::Gone,
         }
     }
     fn rewind(&mut self) {
@@ -340,6 +372,21 @@ fn execute<T: Composer>(pool: &[String], ops: &[Op], ctl: &SinkCtl, stream: bool
                 let s = std::mem::replace(&mut st, Stage::Gone);
                 st = s.next();
             }
+            Op::Goto(to) => {
+                let s = std::mem::replace(&mut st, Stage::Gone);
+                st = s.goto(*to);
+                model.items.retain(|(s, _)| *s <= *to);
+                if *to < 3 {
+                    model.opt = None;
+                }
+                sim::stat("probe.section_conversion");
+            }
+            Op::ToBuilder => {
+                let s = std::mem::replace(&mut st, Stage::Gone);
+                st = s.to_builder();
+                model.items.clear();
+                model.opt = None;
+            }
             Op::Rewind => {
                 let sec = st.section();
                 st.rewind();
@@ -452,6 +499,17 @@ fn gen_ops(pool: &[String], size_class: u64) -> Vec<Op> {
                 section += 1;
             }
             2 => ops.push(Op::Rewind),
+            7 if sim::chance("ops.goto", 1, 2) => {
+                let to = sim::draw("ops.goto_to", 4) as u8;
+                if to != section {
+                    ops.push(Op::Goto(to));
+                    section = to;
+                }
+            }
+            8 if sim::chance("ops.to_builder", 1, 4) => {
+                ops.push(Op::ToBuilder);
+                section = 0;
+            }
             3 => ops.push(Op::SetLimit(12 + sim::draw("ops.limit", 700) as usize)),
             4 => ops.push(Op::ClearLimit),
             5 if section == 3 => ops.push(Op::Opt(*sim::pick("ops.opt_size", &[1232u16, 512, 4096]))),
@@ -467,7 +525,13 @@ fn gen_ops(pool: &[String], size_class: u64) -> Vec<Op> {
                     }
                 }
                 let owner = pick_name();
-                let ttl = sim::draw("ops.ttl", 4) as u32 * 100;
+                let ttl = match sim::draw("ops.ttl", 8) {
+                    k @ 0..=3 => k as u32 * 100,
+                    4 => 0x7fff_ffff,
+                    5 => 0x8000_0000,
+                    6 => 0xffff_ffff,
+                    _ => sim::draw("ops.ttl_any", 1 << 32) as u32,
+                };
                 let rd = match sim::draw("ops.rtype", 7) {
                     0 | 1 => RData::A(sim::draw("ops.a", 1 << 16) as u32),
                     2 => {
@@ -511,7 +575,7 @@ impl Scenario for BuilderScn {
         )
     }
     fn rule(&self) -> &'static str {
-        "one evaluation = one seeded operation sequence (3-24 ops: push question/record with names from a pool with shared suffixes, case variants, the root and 255-octet names and rdata A/TXT/MX/CNAME/NS/SOA; next section; rewind; set/clear push limit; opt; heal) executed fault-free and then re-executed once per fault point: sink capacity at EVERY octet offset up to the fault-free length (first 1500 offsets, then every 37th) and a push limit at every 3rd such position, for one compressor kind (none/static/tree/hash) x plain/stream target; after every op the octets and counts must be unchanged if the op failed, the stream prefix must equal the length, and the message must parse back to exactly the accepted items with the pushed names. counter.builder_executions = number of builder runs."
+        "one evaluation = one seeded operation sequence (3-24 ops: push question/record with names from a pool with shared suffixes, case variants, the root and 255-octet names and rdata A/TXT/MX/CNAME/NS/SOA and TTLs over the whole 32-bit range; next section; direct conversion to any other section builder or back to the message builder; rewind; set/clear push limit; opt; heal) executed fault-free and then re-executed once per fault point: sink capacity at EVERY octet offset up to the fault-free length (first 1500 offsets, then every 37th) and a push limit at every 3rd such position, for one compressor kind (none/static/tree/hash) x plain/stream target; after every op the octets and counts must be unchanged if the op failed, the stream prefix must equal the length, and the message must parse back to exactly the accepted items with the pushed names. counter.builder_executions = number of builder runs."
     }
     fn assumptions(&self) -> Vec<&'static str> {
         vec![
